@@ -18,6 +18,8 @@ HARNESS = {
     "C10": "c09_c10",
     "C11": "c11_c12",
     "C12": "c11_c12",
+    "C13": "c13_c19",
+    "C19": "c13_c19",
 }
 
 
